@@ -105,6 +105,7 @@ def run_history(h, agg):
     cs.paths_manager.add_named_paths(name="g1", paths=["~ id: m0 ~ $[*][yes()]", '~ id: m1 ~ $[1*][#a == "2"]'])
     cs.paths_manager.add_named_paths(name="g2", paths=["~ id: m0 ~ $[*][push(\"s\", #a)]"])
     inst = None
+    observer = env.new_csvpaths()  # a long-lived instance that only ever resolves references
     _NOW["t"] = START
     runs = []  # dicts: group, time, dir, method
     w = {"history": h}
@@ -168,27 +169,30 @@ def run_history(h, agg):
                     # the statement orders runs started in *different* seconds; a tie at the extreme is not decided
                     agg.count("reference_ties_skipped")
                     continue
-                agg.count("references_checked")
-                ref = f"${g}.results.{prefix}{which}.m0"
-                want = os.path.join("archive", g, pick["dir"], "m0", "data.csv")
-                try:
-                    got = inst.file_manager.get_named_file(ref)
-                    err = None
-                except Exception as e:  # noqa
-                    got, err = None, type(e).__name__
-                if os.path.exists(want):
-                    if got is None or os.path.normpath(got) != os.path.normpath(want):
+                for who, resolver in (("the instance that ran", inst), ("a long-lived instance that resolved references before", observer)):
+                    agg.count("references_checked")
+                    ref = f"${g}.results.{prefix}{which}.m0"
+                    want = os.path.join("archive", g, pick["dir"], "m0", "data.csv")
+                    try:
+                        got = resolver.file_manager.get_named_file(ref)
+                        err = None
+                    except Exception as e:  # noqa
+                        got, err = None, type(e).__name__
+                    if os.path.exists(want):
+                        if got is None or os.path.normpath(got) != os.path.normpath(want):
+                            w["reference"] = ref
+                            w["resolved_by"] = who
+                            w["resolved_to"] = got or err
+                            w["most_recent" if which == ":last" else "earliest"] = want
+                            w["runs"] = [(r_["dir"], str(r_["time"]), r_["method"]) for r_ in mine]
+                            return "reference" + which.replace(":", "-"), w
+                    elif got is not None and os.path.exists(got):
+                        # the picked run collected nothing (no data.csv): resolving to some other run's data is wrong
                         w["reference"] = ref
-                        w["resolved_to"] = got or err
-                        w["most_recent" if which == ":last" else "earliest"] = want
-                        w["runs"] = [(r_["dir"], str(r_["time"]), r_["method"]) for r_ in mine]
-                        return "reference" + which.replace(":", "-"), w
-                elif got is not None and os.path.exists(got):
-                    # the picked run collected nothing (no data.csv): resolving to some other run's data is wrong
-                    w["reference"] = ref
-                    w["resolved_to"] = got
-                    w["expected_run_without_data"] = pick["dir"]
-                    return "reference" + which.replace(":", "-") + "-wrong-run", w
+                        w["resolved_by"] = who
+                        w["resolved_to"] = got
+                        w["expected_run_without_data"] = pick["dir"]
+                        return "reference" + which.replace(":", "-") + "-wrong-run", w
     return None, None
 
 
